@@ -66,6 +66,11 @@ func c02Step(x *engine.Exec) []engine.Failure {
 		if x.Res.Err != nil {
 			out = append(out, fail("endblock", "error", "EndBlocker failed: %v", x.Res.Err))
 		}
+		for _, u := range ref.Unb {
+			if u.Amt.Sign() == 0 && u.C < prev.Time.UnixNano() {
+				x.Cnt.Inc("endblock.settled_entry_slashed_to_zero")
+			}
+		}
 		pay, nPaid, nBoundary := ref.onEndBlock(prev.Time)
 		if nPaid > 0 {
 			x.Cnt.Add("payouts", int64(nPaid))
@@ -198,6 +203,8 @@ func c02LastAsset(tier string) *engine.Scenario {
 			ops = append(ops, world.Op{K: world.KGovCreate, Denom: "aaa", Class: ClsGov, Args: govArgs("authority", "1", "0,5", "0", "1", 0, false)})
 		}
 		ops = append(ops, world.Op{K: world.KSlash, V: 0, F: "0.333333333333333333", Class: ClsSlash})
+		// a 100% slash takes a pending entry to zero: it is still settled (and its index dropped) on schedule, paying nothing
+		ops = append(ops, world.Op{K: world.KSlash, V: 0, F: "1", Class: ClsSlash})
 		for _, dt := range dts(1, 3) {
 			ops = append(ops, world.Op{K: world.KBlock, Dt: int64(dt), Class: ClsBlock})
 		}
@@ -217,7 +224,7 @@ func c02LastAsset(tier string) *engine.Scenario {
 		Seeds: [][]world.Op{seed}, ClassNames: classNames, Budgets: tierPick(tier, []int{3, 1, 0, 4, 1}, []int{4, 1, 0, 5, 2}), MaxDepth: tierPick(tier, 8, 10),
 		NewRef: func(w *world.World, root *engine.Node) engine.Ref { return newPendRef() },
 		Ops:    ops, Step: step, SeedStep: true,
-		Required: []string{"asset.deleted_with_pending_unbondings", "payout.with_no_asset_left", "payouts"},
+		Required: []string{"asset.deleted_with_pending_unbondings", "payout.with_no_asset_left", "payouts", "endblock.settled_entry_slashed_to_zero"},
 	}
 }
 
